@@ -14,7 +14,8 @@ SPEC = dict(
          'anchors change in between (publications URL changed / cache lifetime passed / cached file set aside, with the server now holding a file with or without the '
          'signature\'s publication; extender re-pointed to one with another calendar): the second verdict follows the anchors configured now. '
          'Publications file sources whose signer does not meet the context\'s certificate constraints (constraint on an attribute the subject lacks - after a matching one, or first - and a second constraint that differs). '
-         'Extender behaviours left-link-as-right-lowest / -middle / -highest (another shape of the extender\'s chain).',
+         'Extender behaviours left-link-as-right-lowest / -middle / -highest (another shape of the extender\'s chain). '
+         'Key-based cases for a signature whose calendar chain has no aggregation time element; reuse case with a cache lifetime of 0 seconds.',
     bounds=dict(quick='all anchor kinds with the correct extender; the 9 deviating extender behaviours on the extension-needing scenarios (later-correct anchors, extending allowed)',
                 thorough='deviating extender behaviours on every extension-capable anchor kind, both consistent and inconsistent signatures'),
     technique='exhaustive product enumeration of anchors x extender behaviours at the transport seam against the real policy code; reference decision procedure as oracle',
